@@ -3,7 +3,7 @@ CONSTANTS
   Algo = "split"
   Texts <- T_more
   CallPool <- Pool_small
-  MaxCalls = 1
+  MaxCalls = 2
 SPECIFICATION Spec
 INVARIANTS EmitCase
 CHECK_DEADLOCK FALSE
